@@ -3,6 +3,9 @@
   `C01Parts` holds the per-entry-point theorems, `C01Sweep` the end-to-end theorem `sweep_no_fault` about the very function
   the correspondence check ties to the real code (`Sweep.sweep`).
 -/
+import Mb2.Props.FnsTblElf
+import Mb2.Props.FnsTblMbi
+import Mb2.Props.Layout
 import Mb2.Props.FnsGetters
 import Mb2.Props.FnsCast
 import Mb2.Props.FnsFb
